@@ -455,6 +455,8 @@ impl PagedWriter {
         proof {
             lemma_appended_refl(*old(self));
             assert(Seq::new(0nat, |i: int| 0u8) =~= Seq::<u8>::empty());
+            // the same alignment written with a mask (x & 3) instead of a remainder (x % 4): equal for every usize
+            assert forall|x: usize| #[trigger] (x & 3) == x % 4 by { assert(x & 3 == x % 4) by (bit_vector); }
             assert forall|a: [u8; 4], lo: int| (forall|i: int| 0 <= i < 4 ==> a@[i] == 0u8) && 0 <= lo <= 4 implies
                 #[trigger] a@.subrange(lo, 4) =~= Seq::new((4 - lo) as nat, |i: int| 0u8) by {}
         }
